@@ -4,6 +4,7 @@ import (
 	"fmt"
 	"go/token"
 	"go/types"
+	"sort"
 	"strings"
 
 	"golang.org/x/tools/go/ssa"
@@ -802,4 +803,107 @@ func rulePartialSpine(c *Ctx, r *Report) {
 		r.info(rule, "scan/partial", "-", desc, "no partial is built around an existing compound")
 	}
 	r.analysed(rule, fmt.Sprintf("%d constructions of a partial around an existing compound", n))
+}
+
+// ---------------------------------------------------------------------------
+// R-PARTIAL-BOTH-PARTS (C11, C02; added after seed C11e): a partial list is a prefix AND a tail.  A function
+// that takes a *partial apart through its fields instead of through the Compound interface (a fast path over a
+// representation) has to look at both: every engine function that reads the field partial.Compound also reads
+// partial.tail - on the same operand or not, anywhere in the function (closures included).  A walk over the
+// prefix alone never sees a variable that stands only in the tail: bagof/3's free-variable set loses a witness,
+// a copy loses a binding, a test for groundness answers wrongly.
+func rulePartialBothParts(c *Ctx, r *Report) {
+	const rule = "R-PARTIAL-BOTH-PARTS"
+	desc := "a function that reads the prefix field of a partial list reads its tail field too"
+	type use struct {
+		prefix, tail ssa.Instruction
+	}
+	uses := map[*ssa.Function]*use{}
+	for _, fn := range c.LibFuncs() {
+		if funcPkg(fn) != c.Engine {
+			continue
+		}
+		top := topFunc(fn)
+		eachInstr(fn, func(in ssa.Instruction) {
+			var fa interface {
+				ssa.Instruction
+				ssa.Value
+			}
+			name := ""
+			switch x := in.(type) {
+			case *ssa.FieldAddr:
+				if isEngNamed(deref(x.X.Type()), "partial") {
+					fa, name = x, fieldName(x)
+				}
+			case *ssa.Field:
+				if isEngNamed(x.X.Type(), "partial") {
+					if st, ok := x.X.Type().Underlying().(*types.Struct); ok {
+						fa, name = x, st.Field(x.Field).Name()
+					}
+				}
+			}
+			if fa == nil {
+				return
+			}
+			// a read: the address is loaded (not only stored to)
+			read := false
+			if refs := fa.Referrers(); refs != nil {
+				for _, ref := range *refs {
+					switch u := ref.(type) {
+					case *ssa.UnOp:
+						read = true
+					case *ssa.Store:
+						if u.Addr != ssa.Value(fa) {
+							read = true
+						}
+					default:
+						read = true
+					}
+				}
+			}
+			if _, isField := in.(*ssa.Field); isField {
+				read = true
+			}
+			if !read {
+				return
+			}
+			u := uses[top]
+			if u == nil {
+				u = &use{}
+				uses[top] = u
+			}
+			switch name {
+			case "Compound":
+				if u.prefix == nil {
+					u.prefix = in
+				}
+			case "tail":
+				if u.tail == nil {
+					u.tail = in
+				}
+			}
+		})
+	}
+	var fns []*ssa.Function
+	for fn := range uses {
+		fns = append(fns, fn)
+	}
+	sort.Slice(fns, func(i, j int) bool { return fname(fns[i]) < fname(fns[j]) })
+	n := 0
+	for _, fn := range fns {
+		u := uses[fn]
+		if u.prefix == nil {
+			continue
+		}
+		n++
+		key := fname(fn) + "/partial.Compound"
+		if u.tail != nil {
+			r.ok(rule, key, c.at(u.prefix), desc, "the tail is read at "+c.at(u.tail), true)
+		} else {
+			r.bad(rule, key, c.at(u.prefix), desc, "the function walks the prefix of a partial list and never looks at its tail: a variable (or any subterm) that stands only in the tail is invisible to it")
+		}
+	}
+	if n == 0 {
+		r.info(rule, "scan/partial.Compound", "-", desc, "no function reads the prefix field of a partial list")
+	}
 }
